@@ -132,3 +132,118 @@ pub fn point(label: &'static str) {
         hook.point(label);
     }
 }
+
+// ---------------------------------------------------------------------------------
+// H3: detached cells and lifecycle drivers. Thin wrappers over the real (crate-private)
+// functions, so that a harness can run the real send / drain / exit code paths on OS
+// threads it controls, without an actor task behind the cell.
+
+use crate::actor::actor_cell::ActorPortSet;
+use crate::actor::actor_properties::MuxedMessage;
+use crate::actor::messages::StopMessage;
+use crate::actor::ActorLifecycleGuard;
+use crate::message::BoxedMessage;
+use crate::Actor;
+use crate::ActorCell;
+use crate::ActorStatus;
+use crate::Signal;
+use crate::SpawnErr;
+use crate::SupervisionEvent;
+
+/// The receiving ends of a cell created with [detached_cell]
+pub struct DetachedPorts(ActorPortSet);
+
+impl std::fmt::Debug for DetachedPorts {
+    fn fmt(&self, f: &mut std::fmt::Formatter<'_>) -> std::fmt::Result {
+        write!(f, "DetachedPorts")
+    }
+}
+
+/// An item read from the message port of a detached cell
+#[derive(Debug)]
+pub enum DetachedMsg {
+    /// the drain marker
+    Drain,
+    /// a user message
+    Msg(BoxedMessage),
+}
+
+impl DetachedPorts {
+    /// Non-blocking read of the message port
+    pub fn try_recv_message(&mut self) -> Option<DetachedMsg> {
+        match self.0.message_rx.try_recv() {
+            Ok(MuxedMessage::Drain) => Some(DetachedMsg::Drain),
+            Ok(MuxedMessage::Message(m)) => Some(DetachedMsg::Msg(m)),
+            Err(_) => None,
+        }
+    }
+    /// Non-blocking read of the supervision port
+    pub fn try_recv_supervision(&mut self) -> Option<SupervisionEvent> {
+        self.0.supervisor_rx.try_recv().ok()
+    }
+    /// Non-blocking read of the stop port
+    pub fn try_recv_stop(&mut self) -> Option<StopMessage> {
+        self.0.stop_rx.try_recv().ok()
+    }
+    /// Non-blocking read of the signal port
+    pub fn try_recv_signal(&mut self) -> Option<Signal> {
+        self.0.signal_rx.try_recv().ok()
+    }
+}
+
+/// The real `ActorCell::new` (name + pid registration included), with the port set handed
+/// to the caller instead of to an actor task
+pub fn detached_cell<A: Actor>(name: Option<String>) -> Result<(ActorCell, DetachedPorts), SpawnErr> {
+    let (cell, ports) = ActorCell::new::<A>(name)?;
+    Ok((cell, DetachedPorts(ports)))
+}
+
+/// The real lifecycle guard of an actor, driven by hand
+pub struct LifecycleHandle(Option<ActorLifecycleGuard>);
+
+impl std::fmt::Debug for LifecycleHandle {
+    fn fmt(&self, f: &mut std::fmt::Formatter<'_>) -> std::fmt::Result {
+        write!(f, "LifecycleHandle")
+    }
+}
+
+impl LifecycleHandle {
+    /// `ActorLifecycleGuard::new`
+    pub fn new(cell: ActorCell) -> Self {
+        Self(Some(ActorLifecycleGuard::new(cell)))
+    }
+    /// `ActorLifecycleGuard::mark_running`
+    pub fn mark_running(&mut self) {
+        if let Some(g) = self.0.as_mut() {
+            g.mark_running();
+        }
+    }
+    /// `ActorLifecycleGuard::finish` (the normal exit path)
+    pub fn finish(mut self, evt: SupervisionEvent) {
+        if let Some(g) = self.0.take() {
+            g.finish(evt);
+        }
+    }
+}
+
+/// `ActorCell::set_status`
+pub fn set_status(cell: &ActorCell, status: ActorStatus) -> ActorStatus {
+    cell.set_status(status)
+}
+
+/// `ActorCell::try_link`
+pub fn try_link(child: &ActorCell, supervisor: ActorCell) -> bool {
+    child.try_link(supervisor)
+}
+
+/// `ActorCell::terminate`
+pub fn terminate(cell: &ActorCell) {
+    cell.terminate()
+}
+
+/// The raw message-admission word of the cell
+pub fn admission_word(cell: &ActorCell) -> usize {
+    cell.inner
+        .message_admission
+        .load(std::sync::atomic::Ordering::SeqCst)
+}
